@@ -25,6 +25,9 @@ def main():
     elif a.prop in ('C12', 'C13', 'C14', 'C15'):
         from checks import tracker_driver
         tracker_driver.main(a.prop, a.tier)
+    elif a.prop == 'C20':
+        from checks import c20
+        c20.main(a.tier)
     elif a.prop == 'C19':
         from checks import c19
         c19.main(a.tier)
